@@ -88,8 +88,13 @@ NewBuf(st, ds, const) ==
 \* ------------------------------------------------------------------ operands
 \* An operand is a tensor handle {h}, a Python scalar {s}, or an inline constant array {arr: [sh, v]}.
 IsH(o) == Has(o, "h")
-OpSh(st, o)    == IF IsH(o) THEN st.H[o.h].sh ELSE IF Has(o, "s") THEN <<>> ELSE o.arr.sh
-OpCells(st, o) == IF IsH(o) THEN Cells(st, o.h) ELSE IF Has(o, "s") THEN <<DC(o.s)>>
+\* [hd |-> h] : the ndarray of tensor h (`h.data`) passed as a plain array - the stop-gradient idiom: same values and
+\* memory as h, but a constant as far as the graph is concerned
+IsHD(o) == Has(o, "hd")
+OpSh(st, o)    == IF IsH(o) THEN st.H[o.h].sh ELSE IF IsHD(o) THEN st.H[o.hd].sh ELSE IF Has(o, "s") THEN <<>> ELSE o.arr.sh
+OpCells(st, o) == IF IsH(o) THEN Cells(st, o.h)
+                  ELSE IF IsHD(o) THEN LET c == Cells(st, o.hd) IN TLCEval([k \in 1..Len(c) |-> DC(c[k].v)])
+                  ELSE IF Has(o, "s") THEN <<DC(o.s)>>
                   ELSE TLCEval([k \in 1..Len(o.arr.v) |-> DC(o.arr.v[k])])
 OpConst(st, o) == IF IsH(o) THEN st.H[o.h].const ELSE TRUE
 OpNodes(st, os) == LET hs == SelectIdx(Len(os), LAMBDA i : IsH(os[i])) IN [k \in 1..Len(hs) |-> st.H[os[hs[k]].h].node]
@@ -145,6 +150,7 @@ LayoutFrom(prs, sh) ==
           IN [p \in 1..Size(sh) |-> LET oi == Unravel(p, sh) IN 1 + SeqSum([a \in 1..n |-> oi[a] * ost[a]])]
 \* a tensor operand's strides follow from its index map; an inline array operand is C-contiguous
 OpPair(st, o) == IF IsH(o) THEN [imap |-> st.H[o.h].imap, sh |-> st.H[o.h].sh]
+                 ELSE IF IsHD(o) THEN [imap |-> st.H[o.hd].imap, sh |-> st.H[o.hd].sh]
                  ELSE IF "arr" \in DOMAIN o THEN [imap |-> Iota(Size(o.arr.sh)), sh |-> o.arr.sh]
                  ELSE [imap |-> <<1>>, sh |-> <<>>]
 ElementwiseLayout(st, os, sh) == LayoutFrom([i \in 1..Len(os) |-> OpPair(st, os[i])], sh)
@@ -236,12 +242,13 @@ RECURSIVE BShapeAll(_)
 BShapeAll(shs) == IF Len(shs) = 1 THEN shs[1] ELSE BShape(shs[1], BShapeAll(Tail(shs)))
 \* einsum without ellipsis: s.subs = one label sequence per operand, s.out = the output labels (labels are integers)
 EinLabels(subs) == UNION {RangeOf(subs[i]) : i \in 1..Len(subs)}
-EinSize(subs, shs, l) == LET i == CHOOSE i \in 1..Len(subs) : l \in RangeOf(subs[i])
-                             j == CHOOSE j \in 1..Len(subs[i]) : subs[i][j] = l
-                         IN shs[i][j]
+\* (operands broadcast like in a ufunc: an axis of length 1 may meet a longer axis under the same label)
+EinSize(subs, shs, l) ==
+  LET occ == {shs[i][j] : <<i, j>> \in {<<i2, j2>> \in (1..Len(subs)) \X (1..4) : j2 <= Len(subs[i2]) /\ subs[i2][j2] = l}}
+  IN CHOOSE m \in occ : \A y \in occ : y <= m
 EinOK(subs, shs, out) ==
-  /\ \A i \in 1..Len(subs) : Len(subs[i]) = Len(shs[i])
-  /\ \A i \in 1..Len(subs) : \A j \in 1..Len(subs[i]) : shs[i][j] = EinSize(subs, shs, subs[i][j])
+  /\ \A i \in 1..Len(subs) : Len(subs[i]) = Len(shs[i]) /\ Len(subs[i]) <= 4
+  /\ \A i \in 1..Len(subs) : \A j \in 1..Len(subs[i]) : shs[i][j] \in {1, EinSize(subs, shs, subs[i][j])}
   /\ RangeOf(out) \subseteq EinLabels(subs) /\ Cardinality(RangeOf(out)) = Len(out)
 EinCells(subs, shs, out, cs) ==
   LET osh == [k \in 1..Len(out) |-> EinSize(subs, shs, out[k])]
@@ -254,7 +261,8 @@ EinCells(subs, shs, out, cs) ==
         DSumSeq([q \in 1..Size(ssh) |->
            LET si == Unravel(q, ssh)
                val(l) == IF l \in RangeOf(out) THEN oi[Pos(out, l)] ELSE si[Pos(sl, l)]
-           IN DProdSeq([i \in 1..Len(subs) |-> cs[i][Ravel([j \in 1..Len(subs[i]) |-> val(subs[i][j])], shs[i])]])])]
+           IN DProdSeq([i \in 1..Len(subs) |->
+                 cs[i][Ravel([j \in 1..Len(subs[i]) |-> IF shs[i][j] = 1 THEN 0 ELSE val(subs[i][j])], shs[i])]])])]
 \* conv_nd(x, w, stride, padding, dilation): x (N, C, X1..), w (F, C, K1..); zero padding
 ConvOutDim(X, K, st, pd, dl) == ((X + 2 * pd - ((K - 1) * dl + 1)) \div st) + 1
 ConvValidDim(X, K, st, pd, dl) == X + 2 * pd >= (K - 1) * dl + 1 /\ (X + 2 * pd - ((K - 1) * dl + 1)) % st = 0
